@@ -764,17 +764,69 @@ def _mentions_captured(sh):
     return False
 
 
-def rule_t7(F):
-    """Arm selection of `match`: a variant that no arm names takes the default chain, which must consist of exactly the arms that
-    every named variant's chain also tries besides its own - the wildcard arms, guarded or not, in order."""
-    r = RuleResult("C01.T7", "match lowering: the default chain selects arms with the same predicate as the wildcard part of every per-variant chain", floor=2)
-    ps = [p for p in F.paths() if p.endswith("::r#match") and "match_expr" in p]
-    if not ps:
-        r.missing("mir::lower::match_expr r#match")
-        return r
-    b = F.body(ps[0])
-    fs = []
-    for c in hir.nodes(b.hir["value"], "mcall"):
+UNK = ("?",)
+
+
+def _pred_eval(sh, d, sel):
+    """Value of a filter predicate (shape from _shape) for an arm whose discriminant is `d`, with a captured usize standing for the
+    chain's own variant 'k' and a captured Option<usize> standing for the selector `sel` of a shared helper.  Values: True/False,
+    'k', 'other', ('none',), ('some', v), UNK."""
+    if not isinstance(sh, tuple) or not sh:
+        return UNK
+    k = sh[0]
+    if k == "lit":
+        return sh[1]
+    if k == "param":
+        return d if sh[1] and sh[1][-1] == 0 else UNK
+    if k == "captured":
+        ty = sh[1] or ""
+        if "Option" in ty:
+            return sel
+        return "k" if "usize" in ty else UNK
+    if k == "def":
+        return ("none",) if sh[1] == "None" else UNK
+    if k == "call":
+        if sh[1] == ("def", "Some") and len(sh[2]) == 1:
+            return ("some", _pred_eval(sh[2][0], d, sel))
+        return UNK
+    if k == "un":
+        v = _pred_eval(sh[2], d, sel)
+        if sh[1] == "!":
+            return (not v) if isinstance(v, bool) else UNK
+        return v
+    if k == "bin":
+        a, b = _pred_eval(sh[2], d, sel), _pred_eval(sh[3], d, sel)
+        if sh[1] in ("||", "&&"):
+            if isinstance(a, bool) and isinstance(b, bool):
+                return (a or b) if sh[1] == "||" else (a and b)
+            if sh[1] == "||" and (a is True or b is True):
+                return True
+            if sh[1] == "&&" and (a is False or b is False):
+                return False
+            return UNK
+        if sh[1] in ("==", "!="):
+            if UNK in (a, b) or (isinstance(a, tuple) and UNK in a) or (isinstance(b, tuple) and UNK in b):
+                return UNK
+            return (a == b) if sh[1] == "==" else (a != b)
+        return UNK
+    if k == "mcall":
+        v = _pred_eval(sh[2], d, sel)
+        if sh[1] in ("is_none", "is_some") and isinstance(v, tuple) and v and v[0] in ("none", "some"):
+            return (v[0] == "none") == (sh[1] == "is_none")
+        if sh[1] in ("as_ref", "copied", "cloned", "clone", "as_deref"):
+            return v
+        return UNK
+    return UNK
+
+
+ARM_DOMAIN = [("none",), ("some", "k"), ("some", "other")]
+PER_VARIANT_TABLE = [True, True, False]      # wildcard arms and the variant's own arms
+DEFAULT_TABLE = [True, False, False]         # wildcard arms only
+
+
+def _filter_closures(body_hir):
+    out = []
+    for c in hir.nodes(body_hir, "mcall"):
         if c["m"] != "filter" or not c["args"]:
             continue
         cl = hir.strip(c["args"][0])
@@ -790,12 +842,51 @@ def rule_t7(F):
                 if pat.get("k") == "pref":
                     rec(pat["pat"], path)
             rec(pp, (i,))
-        fs.append((c["line"], _shape(cl["body"], params)))
-    per_variant = [(ln, sh) for ln, sh in fs if _mentions_captured(sh)]
-    default = [(ln, sh) for ln, sh in fs if not _mentions_captured(sh)]
-    r.inst("per-variant arm filter", {"found": len(per_variant)})
-    r.inst("default arm filter", {"found": len(default)})
-    if default and not per_variant and b.mir:
+        out.append((c["line"], _shape(cl["body"], params)))
+    return out
+
+
+def rule_t7(F):
+    """Arm selection of `match`: the chain of a named variant tries, in arm order, that variant's own arms and every wildcard arm; a
+    variant that no arm names takes the default chain, which consists of exactly the wildcard arms.  Each chain is a filter over the
+    COMPLETE arm list; its predicate is evaluated for the three kinds of arm (wildcard, this variant, another variant) - wherever the
+    filter lives (in r#match itself, or in a helper that takes the wanted discriminant as `Option`)."""
+    r = RuleResult("C01.T7", "match lowering: per-variant chains select {own arms, wildcard arms}, the default chain exactly the wildcard arms (predicates evaluated on the three kinds of arm)", floor=2)
+    ps = [p for p in F.paths() if p.endswith("::r#match") and "match_expr" in p]
+    if not ps:
+        r.missing("mir::lower::match_expr r#match")
+        return r
+    b = F.body(ps[0])
+    producers = []        # (line, kind, table)
+    for ln, sh in _filter_closures(b.hir["value"]):
+        tbl = [_pred_eval(sh, d, UNK) for d in ARM_DOMAIN]
+        producers.append((ln, "filter in r#match", tbl))
+    # helpers that r#match calls with the wanted discriminant
+    ld = hir.LocalDefs(b.hir)
+    for c in list(hir.nodes(b.hir["value"], "call")) + list(hir.nodes(b.hir["value"], "mcall")):
+        d_ = hir.call_def(c) if c["k"] == "call" else c.get("def")
+        hb = F.body(d_ or "")
+        if hb is None or not hb.hir or hb.path == b.path or "lower" not in hb.path:
+            continue
+        fcs = _filter_closures(hb.hir["value"])
+        if not fcs:
+            continue
+        sel = UNK
+        for a in c["args"]:
+            a_ = hir.peel_refs(hir.strip(a))
+            if a_.get("k") == "call" and hir.last(hir.call_def(a_) or "") == "Some":
+                sel = ("some", "k")
+            elif a_.get("k") == "path" and hir.res_local(a_) is None and hir.last(hir.res_def(a_) or "") == "None":
+                sel = ("none",)
+        for ln, sh in fcs:
+            tbl = [_pred_eval(sh, d, sel) for d in ARM_DOMAIN]
+            producers.append((c["line"], "%s(.., %s)" % (hir.last(hb.path), "Some(variant)" if sel == ("some", "k") else "None" if sel == ("none",) else "?"), tbl))
+    per_variant = [p_ for p_ in producers if p_[2] == PER_VARIANT_TABLE]
+    default = [p_ for p_ in producers if p_[2] == DEFAULT_TABLE]
+    other = [p_ for p_ in producers if p_[2] not in (PER_VARIANT_TABLE, DEFAULT_TABLE)]
+    r.inst("per-variant arm filter", {"found": len(per_variant), "sites": [(p_[0], p_[1]) for p_ in per_variant]})
+    r.inst("default arm filter", {"found": len(default), "sites": [(p_[0], p_[1]) for p_ in default]})
+    if not per_variant and b.mir:
         # the chain of each variant is not a filter over the complete arm list: what is it built from?
         defs_ = mir.Defs(b)
         srcs = set()
@@ -807,21 +898,14 @@ def rule_t7(F):
                   "the arms tried for a variant are collected incrementally (%s) instead of by selecting, from the COMPLETE arm list, the arms of that variant and the wildcard arms: a "
                   "wildcard arm written before a variant's first own arm is missing from that variant's chain (its guard is never evaluated)" % ", ".join(sorted(x for x in srcs if x)[:6]))
             return r
-    if not per_variant or not default:
+    for ln, what, tbl in other:
+        names_ = ["a wildcard arm", "an arm of this variant", "an arm of another variant"]
+        show = ", ".join("%s: %s" % (n_, {True: "selected", False: "skipped"}.get(v, "undecided")) for n_, v in zip(names_, tbl))
+        r.bad(b.path, "default chain predicate", relfile(b.file), ln,
+              "the arms tried for a variant are selected by a predicate that is neither {own arms + wildcard arms} nor {wildcard arms} (%s; %s): e.g. a guarded `_ if c` arm is tried for "
+              "`Some(..)` but skipped for `None`" % (what, show))
+    if not other and (not per_variant or not default):
         r.missing("the two arm filters of r#match (per variant: %d, default: %d)" % (len(per_variant), len(default)))
-        return r
-
-    def disjuncts(sh):
-        if sh and sh[0] == "bin" and sh[1] == "||":
-            return disjuncts(sh[2]) + disjuncts(sh[3])
-        return [sh]
-    for ln, sh in per_variant:
-        wild = [d for d in disjuncts(sh) if not _mentions_captured(d)]
-        for dl, dsh in default:
-            if sorted(map(repr, disjuncts(dsh))) != sorted(map(repr, wild)):
-                r.bad(b.path, "default chain predicate", relfile(b.file), dl,
-                      "the arms tried for a variant that no arm names are selected by a different predicate than the wildcard part of the per-variant chains "
-                      "(line %d): e.g. a guarded `_ if c` arm is tried for `Some(..)` but skipped for `None`" % ln)
     return r
 
 
